@@ -6,6 +6,15 @@ from ..common import Sym, sx
 PROP = 'C17'
 
 V = lambda n: ('V', n)
+
+
+def _nest(name, k, inner):
+    t = inner
+    for _ in range(k):
+        t = ('F', name, [t])
+    return t
+
+
 FAMILIES = {
     # infinitely many answers, depth grows with each answer
     'nat': [('nat', [('A', 'z')], 'tru'), ('nat', [('F', 's', [V('X')])], ('call', 'nat', [V('X')]), True)],
@@ -32,16 +41,14 @@ FAMILIES = {
     'probe': [('pd', [V('X')], ('conj', ('neg', ('neg', ('call', '=', [V('X'), ('A', 'b')]))), ('call', 'pd', [V('X')])), True)],
     'probe2': [('pe', [V('X'), V('Y')], ('conj', ('disj', ('ite', ('call', '=', [V('X'), ('F', 'f', [V('Y')])]), 'fail'), 'tru'),
                                          ('conj', ('call', 'once', [('F', '=', [V('Y'), ('A', 'c')])]), ('neg', ('neg', ('call', 'pe', [V('X'), V('Y')]))))), True)],
+    # the first argument binds the query's variable, the depth error strikes in the second
+    # (the deep terms are dynamic facts: the compiler refuses terms nested that deeply in program text)
+    'bind-then-deep': [('dummy', [], 'tru')],
+    # answers of very different depth: the projection overflows on a deep one, later ones are shallow again
+    'varying-depth': [('dummy', [], 'tru')],
     'mixed': [('mixed', [('A', 'a')], 'tru'), ('mixed', [('A', 'b')], 'tru'), ('mixed', [V('X')], ('call', 'mixed2', [V('X')]), True),
               ('mixed2', [V('X')], ('call', 'mixed2', [('F', 'f', [V('X')])]), True)],
 }
-
-
-def _nest(name, k, inner):
-    t = inner
-    for _ in range(k):
-        t = ('F', name, [t])
-    return t
 
 
 def inside_unify_family(k, r):
@@ -51,6 +58,13 @@ def inside_unify_family(k, r):
     return [('fact', [('F', 'h', [('F', 'f', [V('Y'), _nest('w', k, V('Y'))])])], 'tru'),
             ('pp', [('A', 'deep')], ('call', 'fact', [('F', 'h', [('F', 'f', [_nest('s', r, ('A', 'z')), ('_',)])])]), True),
             ('pp', [('A', 'shallow')], 'tru')]
+
+
+def sxterm(t):
+    """source-style ground term -> model term"""
+    if t[0] == 'A':
+        return [Sym('a'), t[1]]
+    return [Sym('f'), t[1]] + [sxterm(a) for a in t[2]]
 
 
 def mk_list(n):
@@ -72,7 +86,7 @@ def sxd(x):
 
 
 def _case(rep, drv, rnd, i, tier):
-    fam = rnd.choice(list(FAMILIES) + ['random', 'random', 'inside-unify'])
+    fam = rnd.choice(list(FAMILIES) + ['random', 'random', 'inside-unify', 'bind-then-deep'])
     limit = rnd.choice([100, 120, 150, 200, 250, 300, 400]) if rnd.random() < 0.3 else rnd.randint(90, 400)
     raise_at = rnd.choice([None, None, None, 1, 2, 5])
     dyn = []
@@ -114,6 +128,20 @@ def _case(rep, drv, rnd, i, tier):
             if n >= 500:
                 limit = rnd.choice([3000, 4000])       # a limit above the interpreter's own (1000) must be honoured
             shallow = n >= 500 or (n <= 30 and limit >= 200)
+        elif fam == 'bind-then-deep':
+            deep = sxterm(_nest('w', rnd.choice([40, 60, 90, 150]), ('A', 'z')))
+            name, args = 'bd', [[Sym('v'), 0], deep]
+            if rnd.random() < 0.2:
+                # ... inside the unification of two structures (no copy of a stored fact is made first)
+                name, args = '=', [[Sym('f'), 'f', [Sym('v'), 0], deep], [Sym('f'), 'f', [Sym('a'), 'k'], deep]]
+            dyn = [('assert', 'bd', 'z', [[Sym('a'), 'k'], deep]), ('assert', 'bd', 'z', [[Sym('a'), 'shallow'], [Sym('a'), 'z']])]
+            if name == 'bd' and rnd.random() < 0.85:
+                # ... or a Python predicate that unifies its arguments with a row by unify_arrays
+                dyn = [('regpy', 'bd', 2, [(0, [[Sym('a'), 'k'], deep]), (0, [[Sym('a'), 'shallow'], [Sym('a'), 'z']])], None, 'explicit', False)]
+        elif fam == 'varying-depth':
+            name, args = 'vd', [[Sym('v'), 0]]
+            dyn = [('assert', 'vd', 'z', [[Sym('i'), n_]]) for n_ in (3, 1, rnd.choice([400, 900]), 2, 5)]
+            limit = rnd.randint(100, 350)
         elif fam == 'probe':
             name, args = 'pd', [[Sym('v'), 0]]
         elif fam == 'probe2':
@@ -135,6 +163,22 @@ def _case(rep, drv, rnd, i, tier):
     for d in dyn:
         R.run_op(eng, d)
     before_bound = R.bound_count()
+    if fam == 'bind-then-deep':
+        # where exactly the limit strikes depends on the limit: every limit of a window is tried
+        lo = rnd.randint(60, 120)
+        for lim in range(lo, lo + 260):
+            try:
+                r_, (l0, l1) = eng.evaluate_bounded(lim, name, args, None)
+            except RecursionError:
+                rep.violation(dict(payload, kind='RecursionError escaped from evaluate_bounded', limit=lim))
+                return
+            finally:
+                sys.setrecursionlimit(max(sys.getrecursionlimit(), 1000))
+            if l0 != l1 or r_[3] != before_bound:
+                rep.violation(dict(payload, limit=lim, kind='after evaluate_bounded with this limit: recursion limit %d -> %d, %d variables still bound'
+                                   % (l0, l1, r_[3] - before_bound), result=sxd(r_)))
+                return
+        rep.count('limit-windows-scanned')
     nested = None
     if rnd.random() < 0.25:
         # the projection runs a bounded query of its own on the same engine, with another limit:
